@@ -559,7 +559,7 @@ func (g *gen) vexpr(d int) string {
 		if g.chance("v.binary", 50) {
 			return g.join(g.kw(g.oneOf("v.bin", "binary", "_binary")), g.vexpr(d-1))
 		}
-		cs := g.oneOf("v.collate", "utf8_bin", "utf8mb4_general_ci", "latin1_swedish_ci", "'utf8_bin'", "C")
+		cs := g.oneOf("v.collate", "utf8_bin", "utf8mb4_general_ci", "latin1_swedish_ci", "'utf8_bin'", "C", "''", "'utf8 bin'", "'1x'", "'a''b'")
 		return g.join(g.vexprTight(d-1), g.kw("collate"), cs)
 	default:
 		return g.intervalExpr(d)
@@ -701,7 +701,7 @@ func (g *gen) funcCall(d int) string {
 		case 1:
 			return g.kw("convert") + "(" + g.expr(d-1) + ", " + g.convertType() + ")"
 		default:
-			return g.kw("convert") + "(" + g.join(g.expr(d-1), g.kw("using"), g.oneOf("f.cs", "utf8", "latin1", "utf8mb4", "'utf8'")) + ")"
+			return g.kw("convert") + "(" + g.join(g.expr(d-1), g.kw("using"), g.oneOf("f.cs", "utf8", "latin1", "utf8mb4", "'utf8'", "''", "'utf 8'")) + ")"
 		}
 	case 3:
 		// keyword functions with ordinary call syntax
